@@ -3,7 +3,7 @@ from common import *
 import treegen, pyfmt
 
 PID = "C10"
-TARGETS = ["Run.vo", "Resp_proofs.vo", "NonVacuous/C10.vo"]
+TARGETS = ["Run.vo", "Resp_proofs.vo", "NonVacuous/C10.vo", "Message_proofs.vo", "Message_proofs2.vo"]
 IMPORTS = "From VF Require Import Base Show Gen_Errors Lexer Response Conv Tree Scripted Run."
 ALLOWED_AXIOMS = []
 PROFILES = ["debug"]
